@@ -46,5 +46,6 @@ def check(tier, seed):
                      "on any other violation.  Hermitian-limit clause: machine-checked (PV.C05_hermitian_limit) - both algorithms' outputs are block-diagonalising transformations in the "
                      "gauge Sel(U - U_inv) = 0, which is unique (PV.nh_unique).")
     d.run_battery("bd_battery.py", ["nonherm"], "inputs on which the shipped algorithm is exact (block-degenerate H_0 or all blocks fully diagonalized): <= 3 blocks, <= 2 parameters, order <= 3, complex energies")
+    d.run_battery("rel_battery.py", ["nh_frames"], "4-dimensional two-block problem, biorthogonal and rescaled (R, L) frames, Hermitian perturbation, dense / sparse, orders <= 3")
     d.run_battery("rel_battery.py", ["implicit"], "implicit mode against the explicit computation, incl. non-Hermitian problems with biorthogonal (R, L) bases, direct solver; sizes 8-9, order 3")
     return d.finish(level="proof", trusted_base=["leanalg/lean/PV/*.lean", "leanalg/genlean.py", "leanalg/extract.py", "contracts/*.py"])
